@@ -4,7 +4,7 @@ from vlib import gen, lib, tablecheck
 from vlib.oracle import Ref, positions
 
 PROPERTY = 'C05'
-RULE = ('cases are context tables (plus Hypothesis tables wider than a machine word: 1-6 x 60-140 and transposed) (exhaustive n*m <= 12 quick / <= 16 + 4x5, 5x4 + multisets thorough; Hypothesis '
+RULE = ('cases are context tables (plus Hypothesis tables wider than a machine word: 1-6 x 60-320 and transposed) (exhaustive n*m <= 12 quick / <= 16 + 4x5, 5x4 + multisets thorough; Hypothesis '
         'families beyond) x every concept, and for Context.neighbors every object subset (n <= 7) or the empty set, '
         'every singleton, every extent and 8 seed-derived subsets. Oracle: upper_neighbors / lower_neighbors as '
         'sets equal the covers computed by search over the brute-force concept set, no repeats, converse checked on '
